@@ -120,3 +120,15 @@ pub open spec fn upl_mono<T>(a: UpLink<T>, b: UpLink<T>) -> bool {
 /// (How the conformance hypothesis on peers enters: the most general conformant peer only ever
 /// chooses protocol-admissible actions.)
 #[verifier::external_body] pub fn ghost_test(b: Ghost<bool>) -> (r: bool) ensures r == b@ { unimplemented!() }
+
+/// A peer handle (sink, upstream source, upstream talkback, user closure).  `gate(k, ..)` is the k-th
+/// call-site clause of the global gate table (bin/gates.py); `post` is the ghost state after the event
+/// has been recorded; `needs_inv` says whether the peer may re-enter the operator during the call (then
+/// the yield-point invariant must hold in the `post` state).
+pub trait Handle<GG, M> {
+    type HH;
+    type CC;
+    spec fn gate(&self, k: int, h: Self::HH, g: GG, c: Self::CC, m: M) -> bool;
+    spec fn post(&self, g: GG, m: M) -> GG;
+    spec fn needs_inv(&self, g: GG, m: M) -> bool;
+}
